@@ -16,7 +16,12 @@ package resolved
 // made outside the solver.
 //@ spec func commonTarget(cts map[types.Path]ast.IsType, ns types.Path, ref ast.TypeRef) types.Path = hasSub(string(ref), "::") ? types.Path(ref) : ((ns != types.Path("") && has(cts, types.Path(string(ns) + "::" + string(ref)))) ? types.Path(string(ns) + "::" + string(ref)) : types.Path(ref))
 //@ func extractNamespace
+//@   props C16
 //@   pure
+//@   safety
+//@   results r
+//@   ensures bare: !hasSub(string(path), "::") ==> r == types.Path("")
+//@   ensures upto_last_separator: hasSub(string(path), "::") ==> string(r) == string(path)[0:lastIdx(string(path), "::")]
 //@ spec func declNs(p types.Path) types.Path = extractNamespace#0(p)
 // Assumed facts about strings.LastIndex (the text of a path): a path without "::" has the empty
 // namespace; the namespace of ns::name is ns when name has no "::".
